@@ -6,9 +6,17 @@ pub mod c01;
 pub mod c04;
 pub mod c05;
 pub mod c13;
+pub mod c17;
+pub mod c18;
 pub mod c28;
 pub mod c29;
+pub mod c36;
 pub mod df;
+
+#[path = "../gen_values.rs"]
+pub mod gen_values;
+#[path = "../gen_sim.rs"]
+pub mod gen_sim;
 
 pub type CheckFn = fn(&Ctx) -> Report;
 
@@ -18,8 +26,11 @@ pub fn registry() -> Vec<(&'static str, CheckFn)> {
         ("C04", c04::run as CheckFn),
         ("C05", c05::run as CheckFn),
         ("C13", c13::run as CheckFn),
+        ("C17", c17::run as CheckFn),
+        ("C18", c18::run as CheckFn),
         ("C28", c28::run as CheckFn),
         ("C29", c29::run as CheckFn),
+        ("C36", c36::run as CheckFn),
     ]
 }
 
@@ -36,7 +47,10 @@ pub fn replay(path: &str) -> i32 {
         "C01" => c01::replay(&doc),
         "C04" => c04::replay(&doc),
         "C13" => c13::replay(&doc),
+        "C17" => c17::replay(&doc),
+        "C18" => c18::replay(&doc),
         "C28" => c28::replay(&doc),
+        "C36" => c36::replay(&doc),
         "C29" => c29::replay(&doc),
         x => {
             eprintln!("no replay handler for property {x}; the case is in the file under \"case\"");
